@@ -451,7 +451,8 @@ pub fn match_instr(
                 defs,
                 ruledef_ref,
                 &mut walker,
-                true);
+                true,
+                &[]);
 
             working_matches.extend(ruledef_matches);
         }
@@ -531,7 +532,8 @@ fn match_with_ruledef_map<'src>(
             entry.rule_ref,
             rule,
             walker.clone(),
-            true);
+            true,
+            &[]);
             
         matches.extend(rule_matches);
     }
@@ -544,7 +546,8 @@ fn match_with_ruledef<'src>(
     defs: &asm::ItemDefs,
     ruledef_ref: util::ItemRef<asm::Ruledef>,
     walker: &mut syntax::Walker<'src>,
-    needs_consume_all_tokens: bool)
+    needs_consume_all_tokens: bool,
+    nesting: &[(usize, usize)])
     -> WorkingMatches<'src>
 {
     let mut matches = WorkingMatches::new();
@@ -561,7 +564,8 @@ fn match_with_ruledef<'src>(
             rule_ref,
             rule,
             walker.clone(),
-            needs_consume_all_tokens);
+            needs_consume_all_tokens,
+            nesting);
             
         matches.extend(rule_matches);
     }
@@ -576,7 +580,8 @@ fn begin_match_with_rule<'src>(
     rule_ref: util::ItemRef<asm::Rule>,
     rule: &asm::Rule,
     mut walker: syntax::Walker<'src>,
-    needs_consume_all_tokens: bool)
+    needs_consume_all_tokens: bool,
+    nesting: &[(usize, usize)])
     -> WorkingMatches<'src>
 {
     match_with_rule(
@@ -585,6 +590,7 @@ fn begin_match_with_rule<'src>(
         &mut walker,
         needs_consume_all_tokens,
         0,
+        nesting,
         &mut InstructionMatch {
             ruledef_ref,
             rule_ref,
@@ -603,6 +609,7 @@ fn match_with_rule<'src>(
     walker: &mut syntax::Walker<'src>,
     needs_consume_all_tokens: bool,
     at_pattern_part: usize,
+    nesting: &[(usize, usize)],
     match_so_far: &mut InstructionMatch)
     -> WorkingMatches<'src>
 {
@@ -653,6 +660,7 @@ fn match_with_rule<'src>(
                                     needs_consume_all_tokens,
                                     part_index,
                                     enable_lookahead,
+                                    nesting,
                                     match_so_far.clone()));
                         }
 
@@ -675,6 +683,7 @@ fn match_with_rule<'src>(
                                     needs_consume_all_tokens,
                                     part_index,
                                     enable_lookahead,
+                                    nesting,
                                     match_so_far.clone()));
                         }
 
@@ -703,6 +712,7 @@ fn match_with_expr<'src>(
     needs_consume_all_tokens: bool,
     at_pattern_part: usize,
     enable_lookahead: bool,
+    nesting: &[(usize, usize)],
     mut match_so_far: InstructionMatch)
     -> WorkingMatches<'src>
 {
@@ -748,6 +758,7 @@ fn match_with_expr<'src>(
         &mut walker,
         needs_consume_all_tokens,
         at_pattern_part + 1,
+        nesting,
         &mut match_so_far)
 }
 
@@ -760,11 +771,23 @@ fn match_with_nested_ruledef<'src>(
     needs_consume_all_tokens: bool,
     at_pattern_part: usize,
     enable_lookahead: bool,
+    nesting: &[(usize, usize)],
     match_so_far: InstructionMatch)
     -> WorkingMatches<'src>
 {
     let walker_start = walker.next_useful_index();
     let walker_limit_prev = walker.get_cursor_limit();
+
+    // Entering the same ruledef again without having consumed
+    // any input would recurse forever (left-recursive rules)
+    let nesting_key = (nested_ruledef_ref.0, walker.get_cursor_index());
+    if nesting.contains(&nesting_key)
+    {
+        return vec![];
+    }
+
+    let mut inner_nesting = nesting.to_vec();
+    inner_nesting.push(nesting_key);
 
     let Some(nested_matches) =
         parse_with_lookahead(
@@ -776,7 +799,8 @@ fn match_with_nested_ruledef<'src>(
                 defs,
                 nested_ruledef_ref,
                 walker,
-                false))
+                false,
+                &inner_nesting))
         else { return vec![] };
 
     
@@ -813,6 +837,7 @@ fn match_with_nested_ruledef<'src>(
             &mut walker,
             needs_consume_all_tokens,
             at_pattern_part + 1,
+            nesting,
             &mut match_so_far);
             
         matches.extend(resumed_matches);
